@@ -6,6 +6,7 @@ import (
 	"path/filepath"
 	"sync"
 
+	"verif/corp"
 	"verif/gen"
 	"verif/gram"
 )
@@ -113,4 +114,14 @@ func (s *sweeper) runMD(md string, flags []string) *GenOut {
 	o := &GenOut{Text: md, Args: args, Dir: dir}
 	o.Res = s.pool.Run(gen.Job{Dir: dir, Args: args})
 	return o
+}
+
+// skipNotCompiling: the item was generated with exit status 0 but its packages do not compile. That is C09's
+// subject; the check at hand goes on without it and says so.
+func skipNotCompiling(it *corp.Item) bool {
+	if it.CompileErr == "" {
+		return false
+	}
+	fmt.Printf("NOTE: generated code of a corpus grammar does not compile and is left out (C09's subject): %s\n  grammar: %s flags %v\n", it.CompileErr, oneLine(it.Text), it.Flags)
+	return true
 }
